@@ -156,6 +156,9 @@ def gen_schedules(fam, tier, seed, work):
             s["driver"] = sim.get("driver", fam["driver"])
             s["isolate"] = bool(sim.get("isolate"))
             s["nvb"] = s["cfg"].get("NVB", 0)
+            s["cfg"].update(sim.get("rig", {}))            # rig options that the specification does not know (e.g. RmReal)
+            if sim.get("rig"):
+                s["src"] += "+" + ",".join(sorted(sim["rig"]))
             scheds.append(s)
         gens.append({"source": "tlc -simulate " + sim["cfg"], "behaviours": len(ss), "depth": depth,
                      "wall_s": round(wall, 1)})
@@ -183,6 +186,9 @@ def gen_schedules(fam, tier, seed, work):
             s["driver"] = sc.get("driver", fam["driver"])
             s["isolate"] = bool(sc.get("isolate"))
             s["nvb"] = s["cfg"].get("NVB", 0)
+            s["cfg"].update(sc.get("rig", {}))
+            if sc.get("rig"):
+                s["src"] += "+" + ",".join(sorted(sc["rig"]))
             scheds.append(s)
         gens.append({"source": "scenarios " + sc["file"], "behaviours": len(ss), "wall_s": round(wall, 1)})
         shutil.rmtree(d, ignore_errors=True)
